@@ -4,6 +4,7 @@
   below is the model's own computation, replayed on the implementation by corpus/D-MERGE.ops.
 -/
 import Nuts.Model.Tx
+import NutsProofs.Lemmas.MergeKV
 namespace NutsProofs.C15
 open Nuts Nuts.Model Nuts.Model.DB
 
@@ -55,5 +56,81 @@ theorem C15_witness_active_file_removed :
     ((aget? dead1.kv [97]).bind (aget? · [107, 52])).isSome = true ∧ dead1.files = [] ∧
     ((aget? (openDB { seg := 200 } dead1.files).1.kv [97]).bind (aget? · [107, 52])).isSome = false := by
   decide
+
+/-! ### Merge on key/value databases, for every history
+
+`MergeKV.MInv` is the invariant Merge works under: the directory is packed, every record of the files is a
+key/value record that fits a segment, every bucket is sorted, the entry of a record's key sits at the record's
+position or later, and every entry either addresses a record of the files equal to the one it caches or is
+dead with its file gone. States reached by key/value histories have it (`minv_of_logInv`); one file of Merge
+keeps it (`mergeSelect_eq`: what is rewritten are exactly the live records that their key's entry points at;
+`rewrite_step`: the rewrite transaction re-applies them, each replacing its entry by one with the same visible
+content; `remove_step`: the entries left pointing into the removed file are dead ones); `go_spec` is the loop. -/
+
+open NutsProofs.Reopen NutsProofs.KVRefine NutsProofs.Hints NutsProofs.MergeKV in
+/-- **C15 (key/value databases, in process, every history).** After any history of key/value write
+transactions and reopens, whose records fit the segment size in force, call `Merge` (at any clock value, with
+any transaction ids for its rewrites). Then: with fewer than two data files it fails and changes nothing;
+otherwise, unless it ends with the active file unlinked (the recorded finding D-MERGE-ACTIVE: no file held a
+live record), it succeeds and leaves the index of every bucket with the same keys in the same order and the
+same value, timestamp, TTL and flag under each key — so deleted, expired and overwritten records are not
+resurrected and nothing live is lost — every entry's transaction committed, and the options unchanged; and the
+state it leaves satisfies the invariant again, so the statement applies to a second Merge as well. -/
+theorem C15_merge_keeps_kv_index (opt0 : Opts) (ops : List Op) (hok : OpsOk (openDB opt0 []).1 ops)
+    (hrec : OpsRecOk ops)
+    (hsz : ∀ x ∈ allRecs (ops.foldl stepOp (openDB opt0 []).1).files, ¬ x.1.size > (ops.foldl stepOp (openDB opt0 []).1).opt.seg)
+    (now : Nat) (txids : List Nat) :
+    let s := ops.foldl stepOp (openDB opt0 []).1
+    (s.files.length < 2 → merge s now txids = (s, .err)) ∧
+    (¬ s.files.length < 2 → (merge s now txids).1.activeUnlinked = false →
+      (merge s now txids).2 = .ok () ∧ MInv (merge s now txids).1 now ∧
+      visKV (merge s now txids).1.kv = visKV s.kv ∧
+      (∀ id, id ∈ s.committed → id ∈ (merge s now txids).1.committed) ∧
+      (merge s now txids).1.opt = s.opt) := by
+  intro s
+  have hinv : LogInv s := logInv_ops ops _ (logInv_init opt0) hok
+  have hpk : Packed s := packed_ops ops _ (logInv_init opt0) (packed_init opt0) hok
+  have hlog : (allRecs s.files).map (·.1) = logOf ops := by
+    have h0 : (allRecs (openDB opt0 []).1.files).map (·.1) = [] := by simp [openDB, fileEnsure, allRecs]
+    have := log_of_ops ops _ (logInv_init opt0) hok
+    rw [h0, List.nil_append] at this
+    exact this
+  have hL : ∀ x ∈ allRecs s.files, RecOk x.1 := by
+    intro x hx
+    apply logOf_recOk ops hrec
+    rw [← hlog]; exact List.mem_map.mpr ⟨x, hx, rfl⟩
+  exact merge_spec s now txids (minv_of_logInv s now hinv hpk hL hsz)
+
+open NutsProofs.MergeKV in
+/-- … and again: Merge after Merge (the invariant is all the statement needs) -/
+theorem C15_merge_again (s : State) (now now' : Nat) (txids : List Nat) (h : MInv s now) (hnow : now = now') :
+    ¬ s.files.length < 2 → (merge s now' txids).1.activeUnlinked = false →
+      (merge s now' txids).2 = .ok () ∧ visKV (merge s now' txids).1.kv = visKV s.kv := by
+  subst hnow
+  intro h2 hl
+  obtain ⟨h1, _, h3, _, _⟩ := (merge_spec s now txids h).2 h2 hl
+  exact ⟨h1, h3⟩
+
+instance : DecidableEq (Bytes × (Bytes × Nat × Nat × Nat)) := inferInstance
+instance : DecidableEq (List (Bytes × (Bytes × Nat × Nat × Nat))) := inferInstance
+instance : DecidableEq (Bytes × List (Bytes × (Bytes × Nat × Nat × Nat))) := inferInstance
+instance : DecidableEq (List (Bytes × List (Bytes × (Bytes × Nat × Nat × Nat)))) := inferInstance
+
+/-- `Put(bucket a, key k, 16 bytes)` with transaction id `id` (60 bytes on disk) -/
+def wPut (id k : Nat) : List Rec := [{ (mkRec [97] [k.toUInt8] (List.replicate 16 120) flagSet dsKV) with txid := id }]
+
+open NutsProofs.Reopen NutsProofs.MergeKV in
+/-- the theorem is not about nothing: three transactions over 100-byte segments leave three files, key 1
+overwritten; Merge succeeds, keeps the active file linked, rewrites into new files — and the visible index is
+the same (checked here by evaluating the model, as the theorem says it must be) -/
+theorem C15_witness_merge :
+    let ops := [Op.commit (wPut 1 1), .commit (wPut 2 2), .commit (wPut 3 1)]
+    let s := ops.foldl stepOp (openDB { seg := 100 } []).1
+    s.files.map (·.fid) = [0, 1, 2] ∧ (merge s 5 [10, 11, 12]).2 = .ok () ∧
+    (merge s 5 [10, 11, 12]).1.activeUnlinked = false ∧
+    (merge s 5 [10, 11, 12]).1.files.map (·.fid) = [3, 4] ∧
+    visKV (merge s 5 [10, 11, 12]).1.kv = visKV s.kv := by
+  intro ops s
+  refine ⟨by decide +kernel, by decide +kernel, by decide +kernel, by decide +kernel, by decide +kernel⟩
 
 end NutsProofs.C15
